@@ -220,6 +220,15 @@ fn gen_c04(seed: u64, idx: usize, tier: Tier) -> RunScenario {
         }
     }
     let mut opts = gen_opts(&mut rng, &spec);
+    // one run in ten that uses sequences names a command of a sequence again in --commands: the command then
+    // occurs twice in the documented order and runs twice (every child exits 0 here, so the second occurrence
+    // is told apart from the first by its position alone)
+    if !opts.sequences.is_empty() && rng.chance(1, 10) {
+        let used: Vec<String> = spec.sequences.iter().filter(|s| opts.sequences.contains(&s.0)).flat_map(|s| s.1.iter().cloned()).collect();
+        if !used.is_empty() {
+            opts.commands.push(used[rng.below(used.len())].clone());
+        }
+    }
     let mode = if gap {
         let mut edits = vec!["gap0/other.txt".to_string(), "gap2/file.txt".to_string()];
         for t in &spec.targets {
